@@ -146,6 +146,28 @@ fn lib_n<const N: usize>(o: &mut Outcome, seed: u64) {
     let sig = msg.sign(&mut rng, &kp);
     both_sides!(SignatureProofBuilder::generate_proof_commitments(&mut rng, msg.clone(), sig, &[None; N], kp.public_key()), generate_proof_response, "SignatureProof", 4);
     both_sides!(SignatureRequestProofBuilder::generate_proof_commitments(&mut rng, msg.clone(), &[None; N], kp.public_key()), generate_proof_response, "SignatureRequestProof", 2);
+    // the prover's entropy fails (one 64-byte draw returns zeros): whatever proof results, the
+    // challenge derived from it must still be the one derived from its builder
+    {
+        let probe = {
+            let mut r = SimRng::new(seed, &format!("c12/lib/faulty-prover/{}", N));
+            let _ = SignatureProofBuilder::generate_proof_commitments(&mut r, msg.clone(), sig, &[None; N], kp.public_key());
+            r.draws
+        };
+        let idx: Vec<usize> = (0..probe.len()).filter(|&i| probe[i] == crate::rng::DrawKind::Fill(64)).collect();
+        for &at in &idx {
+            let mut r = SimRng::zero_window(seed, &format!("c12/lib/faulty-prover/{}", N), at, 1);
+            let b = SignatureProofBuilder::generate_proof_commitments(&mut r, msg.clone(), sig, &[None; N], kp.public_key());
+            let cb = ChallengeBuilder::new().with(&b).with_bytes(b"ctx").finish();
+            let proof = b.generate_proof_response(cb);
+            let cp = ChallengeBuilder::new().with(&proof).with_bytes(b"ctx").finish();
+            o.bump("fault.entropy.prover-zero-draw");
+            o.events += 1;
+            if cb.to_scalar() != cp.to_scalar() {
+                o.violate("prover-verifier-challenge-mismatch", "SignatureProof(faulty prover entropy)", format!("with draw {} of the prover's generator zeroed, the challenge from the builder differs from the challenge from the finished proof (N = {})", at, N));
+            }
+        }
+    }
     // every ChallengeInput the verifier feeds
     tamper_all(o, &format!("PublicKey<{}>", N), kp.public_key(), None, seed);
     tamper_all(o, &format!("PedersenParameters<G1,{}>", N), &p1, None, seed);
@@ -263,6 +285,18 @@ fn lib_elements(o: &mut Outcome, seed: u64) {
             o.events += 1;
             if za::Context::new(&x).as_bytes() == base_ctx {
                 o.violate("context-ignores-input-byte", "Context::new", format!("changing byte {} of a {}-byte context input leaves the context unchanged", pos, len));
+            }
+        }
+        // a transcript and its own digest (or its own context) are different inputs
+        {
+            use sha3::{Digest, Sha3_256};
+            let d = Sha3_256::digest(&base_in).to_vec();
+            o.bump("fault.tamper.context-byte");
+            if d != base_in && za::Context::new(&d).as_bytes() == base_ctx {
+                o.violate("context-ignores-input-byte", "Context::new", format!("a {}-byte context input and its SHA3-256 digest give the same context", len));
+            }
+            if base_ctx.to_vec() != base_in && za::Context::new(&base_ctx).as_bytes() == base_ctx {
+                o.violate("context-ignores-input-byte", "Context::new", format!("a {}-byte context input and its own context bytes give the same context", len));
             }
         }
         let mut x = base_in.clone();
@@ -633,6 +667,6 @@ impl Prop for C12 {
         ]
     }
     fn required_probes(&self, _tier: Tier) -> Vec<&'static str> {
-        vec!["fault.tamper.first-move-atom", "fault.tamper.context-byte", "fault.tamper.verifier-input", "fault.tamper.permutation", "fault.tamper.boundary-shift", "probe.builder_proof_challenges_equal"]
+        vec!["fault.tamper.first-move-atom", "fault.tamper.context-byte", "fault.tamper.verifier-input", "fault.tamper.permutation", "fault.tamper.boundary-shift", "fault.entropy.prover-zero-draw", "probe.builder_proof_challenges_equal"]
     }
 }
